@@ -15,6 +15,7 @@ import warnings
 import numpy as np
 
 from mc import core
+from mc import alphabets as AB
 from mc.enc import outcome, path2j
 
 from svgpathtools import Path, Line, CubicBezier, smoothed_path, kinks
@@ -159,7 +160,7 @@ def dist_to_polylines(Q, polys):
 
 
 def check(segs, closed, mjs, tight, case, acc):
-    p = Path(*segs)
+    p = AB.derive_path(Path(*segs))
     n = len(segs)
     if not closed and n > 1 and segs[-1].end == segs[0].start:
         closed = True       # a turtle walk that returns exactly to its start IS a closed path
@@ -332,7 +333,10 @@ NSH = 64
 
 
 def shards(tier, seed):
-    return [{'k': k} for k in range(NSH)]
+    out = [{'k': k} for k in range(NSH)]
+    # every eighth (quick) / every (thorough) shard again on equal paths with another history
+    out += AB.provenance_shards(out, tier, lambda d: tier == 'thorough' or d['k'] % 8 == 0, key='pprov')
+    return out
 
 
 def run_shard(desc, tier, seed):
